@@ -38,14 +38,16 @@ theorem C19_independent_commute (c : Cfg) (i j : Nat) (hij : i ≠ j)
 theorem C19_serializable_disjoint (c : Cfg) (h : Disj c) (σ : List Nat) (i : Nat) :
     runSched c σ = runSched c (σ.filter (· == i) ++ σ.filter (· != i)) := front σ i c h
 
-/-- initial configuration in which every session's program consists of `connect(database, schema)` calls (any
-    databases, any schemas – in particular the *same* new database and schema in all of them) -/
+/-- every session's program consists of `connect(database, schema)` calls under the instance lock: ANY of the four
+    combinations of create_database_on_connect / create_schema_on_connect, any databases and schemas – in particular
+    the *same* new database and schema in all sessions – and any spelling (letter case) of the names: `conn.py` folds
+    the names before the ladder runs, and the lock is one per instance, not per name as written -/
 def OnlyLockedConnects (progs : List (List Stmt)) : Prop :=
-  ∀ p ∈ progs, ∀ st ∈ p, ∃ d s, st = connectStmt true d s
+  ∀ p ∈ progs, ∀ st ∈ p, ∃ (cd cs : Bool) (d s : Name), st = connectSpelled (some 0) cd cs d s
 
 /-- **Concurrent connects all succeed** (after the `fix:` commit that runs the connect bootstrap under an instance
-    lock): for any number of sessions, any schedule, no engine call of any connect ever fails – the
-    check-then-ATTACH / check-then-CREATE SCHEMA ladder is never raced. -/
+    lock): for any number of sessions, any flag combination, any spelling of the names, any schedule, no engine call
+    of any connect ever fails – the check-then-ATTACH / check-then-CREATE SCHEMA ladder is never raced. -/
 theorem C19_locked_connects_succeed (progs : List (List Stmt)) (h : OnlyLockedConnects progs) (σ : List Nat) (i : Nat) :
     Res.err ∉ ((runSched (Cfg.init progs) σ).loc i).out := by
   have hinv : Inv (Cfg.init progs) := by
@@ -54,8 +56,27 @@ theorem C19_locked_connects_succeed (progs : List (List Stmt)) (h : OnlyLockedCo
     rw [List.getD_eq_getElem?_getD] at hst
     cases hq : progs[j]? with
     | none => rw [hq] at hst; simp at hst
-    | some p => rw [hq] at hst; exact h p (List.mem_of_getElem? hq) st hst
+    | some p =>
+      rw [hq] at hst
+      obtain ⟨cd, cs, d, s, rfl⟩ := h p (List.mem_of_getElem? hq) st hst
+      exact ⟨cd, cs, d.id, s.id, rfl⟩
   exact (inv_run σ _ hinv).1 i
+
+/-- Witness for a lock keyed by the name *as written* (two spellings of one database → two locks): the sessions do not
+    exclude each other and the second ATTACH fails under the alternating schedule.  (One lock per *folded* name would be
+    fine; the model takes the lock number from the real trace, so either design is followed, not presumed.) -/
+theorem C19_lock_per_spelling_races :
+    Res.err ∈ ((runSched (Cfg.init [[connectSpelled (some 1) true true ⟨0, 0⟩ ⟨1, 0⟩],
+                                    [connectSpelled (some 2) true true ⟨0, 1⟩ ⟨1, 0⟩]]) [0, 1, 0, 1, 0, 1]).loc 1).out := by
+  decide
+
+/-- Witness for "no lock when create_database_on_connect is off": two sessions creating the same new schema in an
+    existing database race CREATE SCHEMA. -/
+theorem C19_unlocked_schema_race :
+    let c0 : Cfg := { g := setG (fun _ => {}) (.db 0) { ex := true, info := true },
+                      loc := (Cfg.init [[connectWith none false true 0 1], [connectWith none false true 0 1]]).loc }
+    Res.err ∈ ((runSched c0 [0, 1, 0, 1]).loc 1).out := by
+  decide
 
 /-- Regression witness for the repaired defect `C19/connect-race`: without the lock, two sessions connecting to the
     same new database under the alternating schedule both see "absent", both ATTACH, and the second one fails. -/
@@ -115,14 +136,14 @@ example : SC { g := fun _ => {}, loc := (Cfg.init [[insertStmt 0 1 1, selectStmt
   | 1, hs => simp at hs; subst hs; rfl
   | n + 2, hs => simp at hs
 
-example : OnlyLockedConnects [[connectStmt true 0 1], [connectStmt true 0 1, connectStmt true 0 2], [connectStmt true 3 1]] := by
+example : OnlyLockedConnects [[connectSpelled (some 0) true true ⟨0, 0⟩ ⟨1, 0⟩],
+    [connectSpelled (some 0) true true ⟨0, 1⟩ ⟨1, 2⟩, connectSpelled (some 0) false true ⟨0, 2⟩ ⟨2, 0⟩],
+    [connectSpelled (some 0) true false ⟨3, 0⟩ ⟨1, 0⟩, connectSpelled (some 0) false false ⟨3, 1⟩ ⟨1, 1⟩]] := by
   intro p hp st hst
   simp at hp
   rcases hp with rfl | rfl | rfl <;> simp at hst
-  · exact ⟨0, 1, hst⟩
-  · rcases hst with rfl | rfl
-    · exact ⟨0, 1, rfl⟩
-    · exact ⟨0, 2, rfl⟩
-  · exact ⟨3, 1, hst⟩
+  · exact ⟨_, _, _, _, hst⟩
+  · rcases hst with rfl | rfl <;> exact ⟨_, _, _, _, rfl⟩
+  · rcases hst with rfl | rfl <;> exact ⟨_, _, _, _, rfl⟩
 
 end Fs.C19
